@@ -73,23 +73,16 @@ def _clauses(paths, post, allow_raise=None):
         cl.append(z3.Implies(pr.pc, post(pr, st)))
     return z3.And(*cl) if cl else z3.BoolVal(False)
 
-def run(ctx):
-    from pytableaux.proof import common as C
-    from pytableaux.lang import Constant
+def append_obligations(ctx, prefix='C06', only=None):
+    """Branch.append interpreted from source for an arbitrary pre-state satisfying the freshness invariant (also a premise of
+    L-SOUND: C01 re-states the two freshness clauses under its own names)"""
     from pytableaux.errors import IllegalStateError
-    ctx.level = 'proof'
-    ctx.drop('type annotations', 'docstrings')
-    ctx.trust('EventEmitter.emit (tools/events.py): calls listeners; listeners do not write Branch\'s private fields (checked by the package-wide frame scan C06.frame)',
-              'qset.append / qset.copy / Branch.Index.add / Index.copy / set.copy: fresh-copy and append contracts (C18 / C16)',
-              'Sentence.constants is the set of constants occurring in the sentence (C15 obligation)',
-              'Node.worlds yields the int values of world/world1/world2 (straight-line; interpreted in C04 models)',
-              'builtin axioms: max of a finite non-empty set, set.update = union, frozenset(x) = set of x, len(s)==0 iff s empty')
-    ctx.assume('Python ints are mathematical; constants are ordered by key 4*subscript+index (obligations C06.next.*, C06.order)',
-               'Errors raised via Emsg.IllegalState are IllegalStateError (errors.py, executed)')
-    ctx.explanation = ('Branch.__init__/append/copy/new_constant/new_world are symbolically executed from source over z3 sets and integers for an '
-                       'arbitrary pre-state satisfying the freshness invariant and an arbitrary node; z3 proves the invariant and the whole-view '
-                       'postconditions for every append history (inductive invariant, no bound).  Witness use is checked on the interpreted '
-                       'schema of every rule.  A bounded search over real append/copy histories replays refutations.')
+    real_ctx = ctx
+    class _F:
+        def add(self, ob):
+            if only is None or any(ob.name.endswith(x) for x in only): return real_ctx.add(ob)
+        def __getattr__(self, n): return getattr(real_ctx, n)
+    ctx = _F()
     # ---------------- append
     def setup_append(it):
         b = B.BranchObj('b'); node = B.NodeSym('node')
@@ -125,9 +118,9 @@ def run(ctx):
                         note='constants are keys 4*subscript+index: 0=a 1=b 2=c 3=d 4=a1 ...')
         def post_inv(i):
             return lambda pr, st: B.inv_fresh(st['b'])[i][1]
-        ctx.add(Obligation('C06.append.fresh-constant', _clauses(paths, post_inv(0), allow), hyps=hyps, where=where, decode=decode,
+        ctx.add(Obligation(f'{prefix}.append.fresh-constant', _clauses(paths, post_inv(0), allow), hyps=hyps, where=where, decode=decode,
                            meta=dict(clause='after append: new_constant() not in constants', function='Branch.append')))
-        ctx.add(Obligation('C06.append.fresh-world', _clauses(paths, post_inv(1), allow), hyps=hyps, where=where, decode=decode,
+        ctx.add(Obligation(f'{prefix}.append.fresh-world', _clauses(paths, post_inv(1), allow), hyps=hyps, where=where, decode=decode,
                            meta=dict(clause='after append: every world on the branch < new_world()', function='Branch.append')))
         def post_view_c(pr, st):
             b, node, old = st['b'], st['node'], st['old']
@@ -135,21 +128,40 @@ def run(ctx):
         def post_view_w(pr, st):
             b, node, old = st['b'], st['node'], st['old']
             return b.f['_worlds'].t == z3.If(node.is_modal, z3.SetUnion(old['worlds'], node.worlds), old['worlds'])
-        ctx.add(Obligation('C06.append.view-constants', _clauses(paths, post_view_c, allow), hyps=hyps, where=where, decode=decode,
+        ctx.add(Obligation(f'{prefix}.append.view-constants', _clauses(paths, post_view_c, allow), hyps=hyps, where=where, decode=decode,
                            meta=dict(clause='constants\' == constants ∪ consts(node) for sentence nodes, unchanged otherwise')))
-        ctx.add(Obligation('C06.append.view-worlds', _clauses(paths, post_view_w, allow), hyps=hyps, where=where, decode=decode,
+        ctx.add(Obligation(f'{prefix}.append.view-worlds', _clauses(paths, post_view_w, allow), hyps=hyps, where=where, decode=decode,
                            meta=dict(clause='worlds\' == worlds ∪ worlds(node) for modal nodes, unchanged otherwise')))
         # closed branch: raises and leaves the fields alone
         def post_closed(pr, st): return z3.Not(st['b'].closed)
-        ctx.add(Obligation('C06.append.closed-raises', _clauses(paths, post_closed, allow), hyps=hyps, where=where,
+        ctx.add(Obligation(f'{prefix}.append.closed-raises', _clauses(paths, post_closed, allow), hyps=hyps, where=where,
                            meta=dict(clause='append returns normally only on an open branch; IllegalStateError only on a closed one')))
         # vacuity: a normal path and a raising path are both reachable
         normal = [pr for pr, st in paths if pr.kind == 'return']
         raising = [pr for pr, st in paths if pr.kind == 'raise']
-        ctx.add(enum_ob('C06.append.cover', len(normal) >= 4 and len(raising) >= 1, where=where, normal_paths=len(normal), raising_paths=len(raising),
+        ctx.add(enum_ob(f'{prefix}.append.cover', len(normal) >= 4 and len(raising) >= 1, where=where, normal_paths=len(normal), raising_paths=len(raising),
                         cex=dict(normal=len(normal), raising=len(raising))))
     except Outside as e:
-        ctx.add_result(Result('C06.append.fresh-constant', 'unknown', detail=f'outside subset: {e}'))
+        ctx.add_result(Result(f'{prefix}.append.fresh-constant', 'unknown', detail=f'outside subset: {e}'))
+
+def run(ctx):
+    from pytableaux.proof import common as C
+    from pytableaux.lang import Constant
+    from pytableaux.errors import IllegalStateError
+    ctx.level = 'proof'
+    ctx.drop('type annotations', 'docstrings')
+    ctx.trust('EventEmitter.emit (tools/events.py): calls listeners; listeners do not write Branch\'s private fields (checked by the package-wide frame scan C06.frame)',
+              'qset.append / qset.copy / Branch.Index.add / Index.copy / set.copy: fresh-copy and append contracts (C18 / C16)',
+              'Sentence.constants is the set of constants occurring in the sentence (C15 obligation)',
+              'Node.worlds yields the int values of world/world1/world2 (straight-line; interpreted in C04 models)',
+              'builtin axioms: max of a finite non-empty set, set.update = union, frozenset(x) = set of x, len(s)==0 iff s empty')
+    ctx.assume('Python ints are mathematical; constants are ordered by key 4*subscript+index (obligations C06.next.*, C06.order)',
+               'Errors raised via Emsg.IllegalState are IllegalStateError (errors.py, executed)')
+    ctx.explanation = ('Branch.__init__/append/copy/new_constant/new_world are symbolically executed from source over z3 sets and integers for an '
+                       'arbitrary pre-state satisfying the freshness invariant and an arbitrary node; z3 proves the invariant and the whole-view '
+                       'postconditions for every append history (inductive invariant, no bound).  Witness use is checked on the interpreted '
+                       'schema of every rule.  A bounded search over real append/copy histories replays refutations.')
+    append_obligations(ctx)
     # ---------------- __init__
     try:
         def setup_init(it):
